@@ -205,6 +205,23 @@ fn one_case(rep: &Report, idx: usize, seed: u64) -> Option<(String, String)> {
                 rep.count("clones.http_with_a_cut_response_and_retries", 1);
             }
         }
+        // every seventh conforming archive is also cloned by the AddressSanitizer build
+        if idx % 7 == 0 && super::asan::available() {
+            let out = dir.join("o_asan.bin");
+            let cs = CloneSpec { archive: p(&apath), output: out.clone(), ..Default::default() };
+            let mut run = Run::new(&dir, "clone_asan", scn::clone_args(&cs));
+            super::asan::arm(&mut run);
+            let o = proc::run(&run);
+            rep.eval();
+            if let super::asan::Verdict::MemoryError(kind, ex) = super::asan::judge(&o) {
+                return Err(format!("AddressSanitizer report ({}) while cloning a conforming archive: {}", kind, ex));
+            }
+            if o.exit.ok() && std::fs::read(&out).unwrap_or_default() == g.source {
+                rep.count("clones.asan_build_clean", 1);
+            } else if o.exit != Exit::Timeout {
+                return Err(format!("the sanitizer build fails on / mis-clones a conforming archive: {} :: {}", o.exit.describe(), o.tail()));
+            }
+        }
         // in-place update (`--seed-output`) of an older version that holds the source's chunks
         // in another order (rotated / reversed / shuffled, sometimes with junk in between and
         // a longer tail): the reader's own index of the output meets the foreign archive's
